@@ -127,11 +127,37 @@ CHECKS.update({
          "Generated block histories (bursts, blocks/reorgs between the RPC calls of one observation pass, reorgs that unconfirm/re-confirm, stale bestblock, transient RPC errors, registration after the fact, window edges, never-broadcast tx, out-of-order headers, heights near 2^32, rejecting consumer). Every confirmation / CSV report must be true in some chain version among the watcher's recent answers; at most one accepted report per registration.",
          "the watcher can only have looked at chain versions spanned by its last 14 (rpc) / 6 (electrum) answers; wall-clock sleeps only give the polling watcher time to run.",
          "DESIGN.md C20"),
- "C22": ("world-real", "exploration", "real RedundantMessenger goroutines (2 ms retry through the verif hook) observed through a decorator of the real Manager; offline oracle over the recorded send log",
+ "C22": ("world-real", "exploration", "real RedundantMessenger goroutines (5 ms retry through the verif hook) observed through a decorator of the real Manager; offline oracle over the recorded send log",
          "Real makers of both roles/chains announce the opening tx to a scripted taker; after a few retransmissions the history continues with {payment, cancel, good coop_close, wrong-key coop_close, invalid message, CSV maturity, restart} and runs >= 20 more retry intervals. Copies must be byte-identical, never more than one live retransmitter per swap, at most one copy after the first committed record in a non-waiting state.",
          "wall-clock time only decides how many copies are observed, never the verdict rule.",
          "DESIGN.md C22"),
 })
+
+
+# what the checks gained after the level texts above were written (second and third wave of seeded changes)
+ADDENDA = {
+ "C01": "Added: whole-node worlds with the REAL rpc / lnd / Electrum watchers under reorganisations below the required depth, and a taker killed inside its payment call with the confirming blocks reorganised away before the restart (depth judged on the chain as it is at the payment crossing).",
+ "C02": "Added: whole-node worlds in which a real maker funds its opening output against takers whose agreement carries other protocol versions; the funded script must be the protocol-7 script of the chain.",
+ "C03": "Added: real CLN and lnd wallet adapters over fakes in part of the Bitcoin worlds; Liquid fee estimation failing once the opening tx is out.",
+ "C05": "Added: whole-node swap-out takers with the REAL rpc and lnd watchers against a maker that broadcasts at once and delays the taker's start by up to 1100 blocks (held fee payment); lnd GetInfo failing after the confirmation event. The start-anchored window found there is a known finding (formula signatures).",
+ "C07": "Added: real rpc watcher with backend hiccups and reorganisations; scripted takers (cancel / unusable coop_close / silence) with the maker restarted while it waits for the CSV.",
+ "C10": "Added: funded makers, recovery under wallet faults, transient store errors on the 2nd/3rd write of a starting swap.",
+ "C11": "Added: wrap-around amounts, zero rates, wallets reporting testnet3/testnet4/mainnet/signet.",
+ "C12": "Added: claim invoices with a sub-satoshi surplus; responder premium over a twelve-entry rate table incl. zero rates in front of non-zero ones and global-rate changes between requests of the same peer.",
+ "C14": "Added: concurrent readers; cancel / coop_close hints longer than 256 bytes with multi-byte characters around byte 256.",
+ "C15": "Added: redelivery, crashes inside the refund path, the maker's claim-invoice creation failing once (crash at every crossing).",
+ "C16": "Added: scripted takers that answer the announcement once with something unusable and go silent, with and without a restart while the maker waits for the CSV.",
+ "C17": "Added: the peer must be told whenever the request / agreement had been handed to the messenger (found and fixed 784803d).",
+ "C18": "Added: a third verdict shape (goroutine inside SendEvent blocked in peerswap's own channel/lock), watcher-liveness probes with a control watcher, lost announcements, transient backend errors.",
+ "C19": "Added: policy readers vs editors, swap churn, timers becoming due together with messages of the same swap, watcher component worlds (Electrum, bitcoind, elementsd, lnd).",
+ "C20": "Added: the real lnd tx watcher as fourth backend; header bursts with a slow consumer; an older header right after a late registration.",
+ "C22": "Added: unreachable peer, slow refund wallet, a stalled backend send while the taker cancels (interval 5 ms).",
+ "C23": "Added: decimal byte-list encodings, failing funding/backends, one node in two swaps in opposite roles with its retransmitter running (also on a single-CPU process).",
+ "C24": "Added: the channel the real lnd client resolves the swap's channel id to (own channel missing / short / present among others).",
+ "C26": "Added: earlier-quarantined peers in unsorted order with an admission control, hand-edited policy files without a final line end, a crash at the quarantine write, a peer-sync store that already knows the peer.",
+ "C27": "Added: the premium written into real agreements for every (asset, direction, layer).",
+ "C29": "Added: a chain switched off in the configuration while a swap on it is active.",
+}
 
 NOT_YET = "monitor not built yet in this round; see DESIGN.md section 7 for the build order"
 
@@ -141,6 +167,8 @@ def main():
         if pid not in CHECKS:
             continue
         eng, cat, tech, text, note, ref = CHECKS[pid]
+        if pid in ADDENDA:
+            text = text + " " + ADDENDA[pid]
         checks.append({
             "property_id": pid,
             "quick_cmd": "./check %s quick" % pid,
